@@ -4,6 +4,7 @@
   `match( in )` body transcribed with those primitives.
 -/
 import PegtlVerif.Model.Basic
+import PegtlVerif.Model.Utf
 
 namespace Pegtl
 
@@ -120,6 +121,14 @@ def eolMatch (cx : Ctx) (st : St) : Bool × Nat × St :=
       else (false, sz, st)
     else (false, sz, st)
 
+/-- The bytes of the window `[cur, endp)`. -/
+def windowBytes (cx : Ctx) (st : St) : List UInt8 := (cx.inp.toList.drop st.cur.pos).take st.avail
+
+def isDigitB (c : UInt8) : Bool := 48 ≤ c && c ≤ 57
+
+/-- Value of a digit string. -/
+def digitsValue (ds : List UInt8) : Nat := ds.foldl (fun acc d => acc * 10 + (d.toNat - 48)) 0
+
 /-- `Rule::test_any( eol_t::ch )` for the atoms that use `bump_help`. -/
 def Atom.testAny (ch : UInt8) : Atom → Bool
   | .one found cs => cs.contains ch == found
@@ -127,6 +136,8 @@ def Atom.testAny (ch : UInt8) : Atom → Bool
   | .ranges rs single => inRanges rs single ch
   | .string cs => cs.contains ch
   | .istring cs => cs.contains ch
+  | .utf8Range found lo hi => decide (lo ≤ ch.toNat ∧ ch.toNat ≤ hi) == found
+  | .maxDigits _ => false
   | _ => true
 
 /-- One atom's `match( in )`. -/
@@ -165,5 +176,16 @@ def atomStep (cx : Ctx) (a : Atom) (st : St) : Bool × St :=
   | .failure => (false, st)
   | .everything => (true, bump cx st st.avail)
   | .require n => (st.avail ≥ n, st)
+  | .utf8Range found lo hi =>
+    match Utf.peekUtf8 (windowBytes cx st) with
+    | some (cp, n) =>
+      if decide (lo ≤ cp ∧ cp ≤ hi) == found then (true, bumpHelp cx (a.testAny cx.eol.ch) st n) else (false, st)
+    | none => (false, st)
+  | .maxDigits mx =>
+    -- match_and_convert_unsigned_with_maximum_nothrow: the whole digit run, no leading zero, value ≤ mx
+    let ds := (windowBytes cx st).takeWhile isDigitB
+    if ds.isEmpty then (false, st)
+    else if ds.length > 1 ∧ ds.head? = some 48 then (false, st)
+    else if digitsValue ds ≤ mx then (true, bumpInThisLine st ds.length) else (false, st)
 
 end Pegtl
